@@ -95,6 +95,9 @@ protected:
     results_t* currentResults{nullptr};
 
     expectation_t* currentExpectation{nullptr};
+
+    /** Return to the global scope, abandoning whatever error recovery left open. */
+    void reset_to_global_scope();
     //
     // Method for handling types
     //
